@@ -1119,8 +1119,9 @@ class AnyFrom(__Class):
             else:
                 message = f"Argument \"{c}\" is neither a string nor a token."
                 raise _ex.InvalidArgumentTypeException(message)
-        chars = tuple((f"\\{c}" if c in __class__._to_escape else c) \
-            if isinstance(c, str) else str(c) for c in chars)
+        # A token contributes the single character that it represents.
+        chars = tuple(c if isinstance(c, str) else str(c).replace("\\", "", 1) for c in chars)
+        chars = tuple(f"\\{c}" if c in __class__._to_escape else c for c in chars)
         super().__init__(f"[{''.join(chars)}]", is_negated=False)
 
 
@@ -1162,8 +1163,9 @@ class AnyButFrom(__Class):
             else:
                 message = f"Argument \"{c}\" is neither a string nor a token."
                 raise _ex.InvalidArgumentTypeException(message)
-        chars = tuple((f"\{c}" if c in __class__._to_escape else c)
-            if isinstance(c, str) else str(c) for c in chars)
+        # A token contributes the single character that it represents.
+        chars = tuple(c if isinstance(c, str) else str(c).replace("\\", "", 1) for c in chars)
+        chars = tuple(f"\\{c}" if c in __class__._to_escape else c for c in chars)
         super().__init__(f"[^{''.join(chars)}]", is_negated=True)
 
 
